@@ -251,35 +251,41 @@ def run(ctx):
 
     # ------------------------------------------------------------------ C01-apply-spread
     ctx.rule("C01-apply-spread", "apply spreads only its last argument, through the common application path")
-    na = fb.find("interpreter::library::native::base::apply")
-    pn = Prov(na)
-    apc = [(b, t) for b, t in na.calls() if callee(t) == ap.name]
-    if len(apc) != 1:
-        ctx.report("C01-apply-spread", "chokepoint", "apply does not call apply_procedure exactly once", where_of(na))
-    else:
-        b, t = apc[0]
-        r0 = {c for _, c in pn.call_roots(t["args"][0])}
-        tc = pn.taint_calls(mir.op_local(t["args"][1]))
-        need = {"std::iter::Iterator::collect", "<smallvec::SmallVec as std::iter::Extend>::extend"}
-        ctx.inst("C01-apply-spread", "apply/args", {"procedure_from": sorted(r0), "args_built_by": sorted(x for x in tc if x in need or x.endswith("::pop"))})
-        if r0 != {"values::Value::expect_procedure"}:
-            ctx.report("C01-apply-spread", "procedure", "the applied procedure is not the checked first argument", where_of(na, t))
-        if not need <= tc or not any(x.endswith("SmallVec::pop") for x in tc):
-            ctx.report("C01-apply-spread", "spread", "the argument vector is not (leading arguments) extended by the elements of "
-                       "the popped last argument", where_of(na, t))
-        # last argument must be a list: the non-Pair arm is an error
-        vsw = [x for x in mir.discriminant_switches(na, "values::Value")]
-        pidx = fb.variant_index("values::Value", "Pair")
-        if not vsw:
-            ctx.report("C01-apply-spread", "last-arg-test", "the last argument is not tested for being a list", where_of(na))
+    # decision table (evaltables.rule_apply_native): the native is run on (P a1..ak (l1 l2)), k = 0..3, and the corner cases; the
+    # application it makes is the observable
+    d_apply = evaltables.rule_apply_native(ctx, "C01-apply-spread")
+
+    def _old_apply_shape():
+        na = fb.find("interpreter::library::native::base::apply")
+        pn = Prov(na)
+        apc = [(b, t) for b, t in na.calls() if callee(t) == ap.name]
+        if len(apc) != 1:
+            ctx.report("C01-apply-spread", "chokepoint", "apply does not call apply_procedure exactly once", where_of(na))
         else:
-            sb2, pl2, a2, tg2, ot2 = vsw[0]
-            reg2 = mir.dominated_region(na, ot2)
-            if not any(v == "TypeMisMatch" for _, _, _, _, v in mir.aggregates(na, reg2)) or tg2.get(pidx) is None:
-                ctx.report("C01-apply-spread", "last-arg-error", "a non-list last argument is not an error", where_of(na))
-        pops = [(b2, t2) for b2, t2 in na.calls() if callee_matches(t2, "SmallVec::pop")]
-        if len(pops) != 1 or pops[0][0] in na.loop_blocks():
-            ctx.report("C01-apply-spread", "only-last", "exactly one argument (the last) must be popped and spread", where_of(na))
+            b, t = apc[0]
+            r0 = {c for _, c in pn.call_roots(t["args"][0])}
+            tc = pn.taint_calls(mir.op_local(t["args"][1]))
+            need = {"std::iter::Iterator::collect", "<smallvec::SmallVec as std::iter::Extend>::extend"}
+            ctx.inst("C01-apply-spread", "apply/args", {"procedure_from": sorted(r0), "args_built_by": sorted(x for x in tc if x in need or x.endswith("::pop"))})
+            if r0 != {"values::Value::expect_procedure"}:
+                ctx.report("C01-apply-spread", "procedure", "the applied procedure is not the checked first argument", where_of(na, t))
+            if not need <= tc or not any(x.endswith("SmallVec::pop") for x in tc):
+                ctx.report("C01-apply-spread", "spread", "the argument vector is not (leading arguments) extended by the elements of "
+                           "the popped last argument", where_of(na, t))
+            # last argument must be a list: the non-Pair arm is an error
+            vsw = [x for x in mir.discriminant_switches(na, "values::Value")]
+            pidx = fb.variant_index("values::Value", "Pair")
+            if not vsw:
+                ctx.report("C01-apply-spread", "last-arg-test", "the last argument is not tested for being a list", where_of(na))
+            else:
+                sb2, pl2, a2, tg2, ot2 = vsw[0]
+                reg2 = mir.dominated_region(na, ot2)
+                if not any(v == "TypeMisMatch" for _, _, _, _, v in mir.aggregates(na, reg2)) or tg2.get(pidx) is None:
+                    ctx.report("C01-apply-spread", "last-arg-error", "a non-list last argument is not an error", where_of(na))
+            pops = [(b2, t2) for b2, t2 in na.calls() if callee_matches(t2, "SmallVec::pop")]
+            if len(pops) != 1 or pops[0][0] in na.loop_blocks():
+                ctx.report("C01-apply-spread", "only-last", "exactly one argument (the last) must be popped and spread", where_of(na))
+    ctx.guarded("C01-apply-spread", d_apply >= 8, _old_apply_shape)
     return EXPLANATION, NOT_DECIDED
 
 
